@@ -110,6 +110,8 @@ Why(e, j) ==
   ELSE IF e.ret = -1 /\ e.cret # 1 THEN "C10:rejected-by-the-filter-but-call-succeeded"
   ELSE IF j <= DomSize /\ Clauses(ObsF, e.s) # "" THEN Clauses(ObsF, e.s)
   ELSE IF Len(e.out) > LINE_CAP - 1 THEN "C09:filter-buffer-overrun"
+  \* (the clause about bytes above 0x7e needs no neighbour string: it is evaluated on the extra strings as well)
+  ELSE IF (\E k \in 1..(FirstStop(e.s) - 1) : e.s[k] > 126) /\ e.ret # -1 THEN "C10:byte-above-0x7e-accepted"
   ELSE LET m == Filter(e.s) IN
        IF e.ret # m.ret \/ (m.ret >= 0 /\ e.out # m.out) THEN "mech:filter-model" ELSE ""
 Init == l = 1 /\ nbad = 0
